@@ -438,6 +438,109 @@ for case, r in zip(ACASES, run_parallel(ACASES, abort_after_half_close, workers=
     if r['finished_after_s'] is None:
         chk.violation('close.abort-after-half-close', f'connection-lingers:{who}|{mname}', f'{who} sent its bytes, ended its direction, then reset the connection while the other side stayed silent ({mname}): 3 s later the proxy still lists the connection as live', {'useSplice': mode, 'who': who})
 
+# ---- an abort with data lost must not reach a TLS peer as a clean end-of-stream: X sends 2 MiB at a Y that is not
+#      reading yet and resets its connection; Y then reads. TLS gives Y an authenticated end-of-stream (close_notify):
+#      it may observe that only after every byte X sent - after an abort that cost bytes it has to see a truncation
+import ssl as _ssl
+def abort_through_tls(case):
+    mode, where = case
+    N = 2 << 20
+    hp_, ap_ = free_port(), free_port()
+    res = {}
+    stop = threading.Event()
+    def slow_end(sock, key):
+        """read to the end, starting late: how many bytes, and how the stream ended"""
+        time.sleep(1.0)
+        n = 0
+        how = 'timeout'
+        sock.settimeout(6)
+        try:
+            while True:
+                d = sock.recv(65536)
+                if not d:
+                    how = 'clean end-of-stream'
+                    break
+                n += len(d)
+        except _ssl.SSLEOFError:
+            how = 'truncated (no close_notify)'
+        except _ssl.SSLError as e:
+            how = f'tls error {e.reason}'
+        except socket.timeout:
+            how = 'timeout'
+        except OSError:
+            how = 'reset'
+        res[key] = (n, how)
+    if where == 'tls-client':
+        ls = socket.socket(); ls.setsockopt(socket.SOL_SOCKET, socket.SO_REUSEADDR, 1); ls.bind(('127.0.0.1', 0)); ls.listen(4)
+        cfg = {'listeners': [{'name': 'https', 'type': 'http', 'bind': f'127.0.0.1:{hp_}', 'tls': TLSS}], 'connectors': [{'name': 'direct'}], 'rules': [{'target': 'direct'}]}
+    else:
+        tctx = _ssl.SSLContext(_ssl.PROTOCOL_TLS_SERVER); tctx.load_cert_chain(f'{CERTS}/server.crt', f'{CERTS}/server.key')
+        ls = socket.socket(); ls.setsockopt(socket.SOL_SOCKET, socket.SO_REUSEADDR, 1); ls.bind(('127.0.0.1', 0)); ls.listen(4)
+        cfg = {'listeners': [{'name': 'http', 'bind': f'127.0.0.1:{hp_}'}], 'connectors': [{'name': 'c', 'type': 'http', 'server': 'localhost', 'port': ls.getsockname()[1], 'tls': TLSC}], 'rules': [{'target': 'c'}]}
+    cfg.update({'metrics': {'bind': f'127.0.0.1:{ap_}', 'ui': None}, 'ioParams': {'bufferSize': 65536, 'useSplice': mode}})
+    pxa = Proxy(cfg, 'c04t')
+    pxa.api_port = ap_
+    if not pxa.start([ap_], timeout=10):
+        return {'error': pxa.log()[-300:]}
+    try:
+        if where == 'tls-client':
+            raw = socket.socket(); raw.setsockopt(socket.SOL_SOCKET, socket.SO_RCVBUF, 16384); raw.settimeout(5); raw.connect(('127.0.0.1', hp_))
+            c = _ssl.create_default_context(cafile=f'{CERTS}/ca.crt').wrap_socket(raw, server_hostname='localhost', suppress_ragged_eofs=False)
+            c.sendall(f'CONNECT 127.0.0.1:{ls.getsockname()[1]} HTTP/1.1\r\n\r\n'.encode())
+            ls.settimeout(5)
+            srv, _ = ls.accept()
+            head, rest = recv_head(c, 5)
+            if not head.startswith(b'HTTP/1.1 200'):
+                return {'error': f'no tunnel: {head[:40]!r}'}
+            th = threading.Thread(target=slow_end, args=(c, 'y'), daemon=True); th.start()
+            x = srv
+            extra = len(rest)
+        else:
+            c = socket.create_connection(('127.0.0.1', hp_), timeout=5)
+            c.sendall(b'CONNECT 127.0.0.1:9 HTTP/1.1\r\n\r\n')
+            ls.settimeout(5)
+            rawu, _ = ls.accept()
+            rawu.setsockopt(socket.SOL_SOCKET, socket.SO_RCVBUF, 16384)
+            u = tctx.wrap_socket(rawu, server_side=True, suppress_ragged_eofs=False)
+            uh, urest = recv_head(u, 5)
+            u.sendall(b'HTTP/1.1 200 OK\r\n\r\n')
+            head, rest = recv_head(c, 5)
+            if not head.startswith(b'HTTP/1.1 200'):
+                return {'error': f'no tunnel: {head[:40]!r}'}
+            th = threading.Thread(target=slow_end, args=(u, 'y'), daemon=True); th.start()
+            x = c
+            extra = len(urest)
+        x.settimeout(0.5)
+        sent = 0
+        blob = pattern(65536, 3)
+        try:
+            while sent < N:
+                sent += x.send(blob[:min(65536, N - sent)])
+        except (socket.timeout, OSError):
+            pass
+        rst_close(x)
+        th.join(10)
+        n, how = res.get('y', (0, 'no verdict'))
+        return {'sent_before_the_abort': sent, 'received': n + extra, 'stream_ended_with': how}
+    finally:
+        pxa.stop(); ls.close()
+
+TCASES = [(m, w) for m in (True, False) for w in ('tls-client', 'tls-upstream')]
+for case, r in zip(TCASES, run_parallel(TCASES, abort_through_tls, workers=4)):
+    mode, where = case
+    evals += 1
+    if isinstance(r, tuple) or 'error' in r:
+        machinery(f'abort through tls {case}: {r}')
+    lost = r['sent_before_the_abort'] - r['received']
+    distinct.add(('abort-through-tls', mode, where, lost > 0, r['stream_ended_with']))
+    if r['stream_ended_with'] in ('no verdict',):
+        machinery(f'abort through tls {case}: {r}')
+    if lost > 0 and r['stream_ended_with'] == 'clean end-of-stream':
+        chk.violation('close.abort-through-tls', f'clean-end-of-stream-after-an-abort-that-lost-bytes:{where}|{"splice" if mode else "buffered"}', f'{where}, useSplice={mode}: the plain endpoint sent {r["sent_before_the_abort"]} bytes and reset its connection; the TLS endpoint received {r["received"]} of them and then an authenticated end-of-stream (close_notify) - it cannot tell the stream was cut', {'useSplice': mode, 'where': where, 'observed': r})
+    if r['stream_ended_with'] == 'timeout':
+        chk.violation('close.abort-through-tls', f'abort-not-relayed:{where}|{"splice" if mode else "buffered"}', f'{where}, useSplice={mode}: 6 s after the plain endpoint reset its connection the TLS endpoint still has an open stream ({r})', {'useSplice': mode, 'where': where, 'observed': r})
+    samples.append({'abort_through_tls': {'useSplice': mode, 'where': where, **r}})
+
 # ---- a half-closed tunnel outlives the idle period as long as its open direction keeps flowing: with timeouts.idle = 2
 #      one endpoint sends a request and ends its direction, the other streams 12 pieces over 6 s
 def half_closed_streaming(case):
@@ -616,6 +719,6 @@ for case, r in zip(HCASES, run_parallel(HCASES, huge_in_flight, workers=6)):
 if evals < 100 or len(distinct) < 10:
     machinery(f'vacuous: evals={evals} distinct={len(distinct)}')
 cov = {'evaluations': evals, 'distinct_nontrivial': len(distinct), 'transitions': sum(len(s) for s in seqs) * 2, 'traces_validated_against_impl': evals,
-       'rule': f'real binary, both I/O modes: all valid sequences of <= {L} ops over (client write, origin write, client half-close, origin half-close) x terminal op (none, client RST, origin RST, client close, origin close); lock-step with observation of bytes / EOF / reset at the other end after every op; final /api/history record per connection',
+       'rule': f'real binary, both I/O modes: all valid sequences of <= {L} ops over (client write, origin write, client half-close, origin half-close) x terminal op (none, client RST, origin RST, client close, origin close); lock-step with observation of bytes / EOF / reset at the other end after every op; final /api/history record per connection; abort through TLS: a plain endpoint sends 2 MiB at a TLS endpoint that reads late, then resets - the TLS endpoint (client of a TLS listener / TLS upstream of a connector, both I/O modes) must not see an authenticated end-of-stream after fewer bytes than were sent',
        'scripts': len(seqs), 'max_ops': L, 'matrix_scripts_run': mcount, 'matrix': f'client {MCLIENT} x middle hop {MCONN} x useSplice x {len(mseqs)} scripts (incl. 9 with 300 KB in flight when the sender ends), through two real hops', 'schedule_control': 'kernel', 'samples': samples}
 sys.exit(chk.finish('model_checking', cov, ['E4 part: lock-step scripts on loopback with 4 s one-sided deadlines; kernel scheduling between steps is not controlled']))
